@@ -107,6 +107,7 @@ type xPortal struct {
 	Params [][]byte
 	PFmts  []int16
 	RFmts  []int16
+	Odd    bool // bound with a number of result format codes that is neither 0, 1 nor the number of columns
 }
 type xState struct {
 	stmts   map[string]*xStmt
@@ -248,8 +249,17 @@ func (s *xState) step(m xMsg) []xExp {
 			return fail(0)
 		}
 		n := s.clone()
-		n.portals[m.Portal] = &xPortal{St: st, BindID: m.BindID, Params: m.Params, PFmts: m.PFmts, RFmts: m.RFmts}
-		return []xExp{{reply: []expMsg{{T: '2'}}, next: n}}
+		pt := &xPortal{St: st, BindID: m.BindID, Params: m.Params, PFmts: m.PFmts, RFmts: m.RFmts}
+		n.portals[m.Portal] = pt
+		out := []xExp{{reply: []expMsg{{T: '2'}}, next: n}}
+		if len(m.RFmts) > 1 && len(m.RFmts) != len(st.H.Cols) {
+			// result format codes whose number is neither 0, 1 nor the number of columns: PostgreSQL refuses
+			// such a Bind, the pinned tree takes it. Either - but a refused Bind defines nothing, and which
+			// codes an accepted one announces is not judged here
+			pt.Odd = true
+			out = append(out, fail(0)...)
+		}
+		return out
 	case "descS":
 		st := s.stmts[m.Name]
 		if st == nil {
@@ -269,6 +279,11 @@ func (s *xState) step(m xMsg) []xExp {
 		}
 		if len(p.St.H.Cols) == 0 {
 			return []xExp{{reply: []expMsg{{T: 'n'}}, next: s}}
+		}
+		if p.Odd {
+			e := rowDescExp(p.St.H.Cols, nil)
+			e.Fmts = nil
+			return []xExp{{reply: []expMsg{e}, next: s}}
 		}
 		return []xExp{{reply: []expMsg{rowDescExp(p.St.H.Cols, p.RFmts)}, next: s}}
 	case "exec":
